@@ -173,4 +173,19 @@ example : pipeline true ⟨.diagonal, ⟨2, 0, 0, 0, 1, 0, 0, 0, 1/2⟩, ⟨0, 0
     ⟨.affine, ⟨1, 1/2, 0, 0, 1, 0, 1/4, 0, 1⟩, ⟨1, 2, 3⟩⟩ [[(⟨1, 1, 1⟩ : V3 Rat)]] = [[⟨25/8, 4, 7/2⟩]] := by
   decide +kernel
 
+/-- the stage order is part of the pipeline: fitting / composing colour balance first and white balance second is a
+different map in general (witness), so "white balance, then colour balance" cannot be swapped silently. -/
+theorem pipeline_order_matters :
+    ∃ (wb col : Stage Rat) (x : V3 Rat), (runCode [wb, col]).apply x ≠ (runCode [col, wb]).apply x :=
+  ⟨⟨.diagonal, ⟨2, 0, 0, 0, 1, 0, 0, 0, 1/2⟩, ⟨0, 0, 0⟩⟩, ⟨.affine, ⟨1, 1/2, 0, 0, 1, 0, 1/4, 0, 1⟩, ⟨1, 2, 3⟩⟩,
+    ⟨1, 1, 1⟩, by decide +kernel⟩
+
+/-- one-shot entry points (`balance(img, src, dst)`, shortcut functions): after the fit they return `apply_balance` of
+the fitted balance, translation included, on every pixel of a flat or gridded array. -/
+theorem call_is_apply_after_fit [CommRing α] (s : Stage α) (img : List (List (V3 α))) :
+    applyGrid (runCode [s]) img = img.map fun row => row.map s.bal.apply := by
+  simp only [applyGrid]
+  congr 1; funext row; congr 1; funext x
+  rw [staged_eq_sequential]; simp [applySeq]
+
 end Darsia.C12
